@@ -176,7 +176,8 @@ func (nz *normalizer) sqlToBindvar(node SQLNode) *querypb.BindVariable {
 		var v sqltypes.Value
 		var err error
 		switch node.Type {
-		case StrVal:
+		case StrVal, PgEscapeString:
+			// PostgreSQL escape strings (E'...') are character strings like any other
 			v, err = sqltypes.NewValue(sqltypes.VarBinary, node.Val)
 		case IntVal:
 			v, err = sqltypes.NewValue(sqltypes.Int64, node.Val)
